@@ -722,6 +722,8 @@ func (e *Env) callExpr(x ECall) Term {
 		argn(1)
 		key := exprString(x.Args[0])
 		return fv.ghostTerm(e.st, "log."+key+".n", SMath)
+	case "fabs", "fisnan", "fisinf", "flt", "fle", "feq", "f32", "f64", "fconst":
+		return e.floatBuiltin(x)
 	case "callseq":
 		// callseq(K, i): position of the i-th logged call of K in the global order of logged calls
 		argn(2)
@@ -1363,4 +1365,104 @@ func replaceToken(s, tok, by string) string {
 		i++
 	}
 	return sb.String()
+}
+
+
+// floatBuiltin: floating-point vocabulary of the contract language. In a
+// function with `flag fp` the operations are SMT FloatingPoint operations; in
+// any other function they are uninterpreted symbols (same name, same
+// arguments, hence congruent).
+//   fabs(x) fisnan(x) fisinf(x, sign) flt(a,b) fle(a,b) feq(a,b) f32(x) f64(x) fconst("1e-6", 64)
+func (e *Env) floatBuiltin(x ECall) Term {
+	fv := e.fv
+	arg := func(i int) Term {
+		t := e.eval(x.Args[i])
+		if t.Sort.Kind != KFloat {
+			e.fail("%s: argument %d is %s, not a float", x.Fn, i+1, t.Sort)
+		}
+		fv.ensureSort(t.Sort)
+		return t
+	}
+	un := func(name string, t Term, ret Sort, body string) Term {
+		fn := fmt.Sprintf("%s%d", name, t.Sort.W)
+		fv.ensureSort(ret)
+		if fv.fp {
+			fv.fpDefine(fn, []string{t.Sort.smt(fv.Mode)}, ret.smt(fv.Mode), body)
+		} else {
+			fv.declareFun(fn, []string{t.Sort.smt(fv.Mode)}, ret.smt(fv.Mode))
+		}
+		return Term{S: app(fn, t.S), Sort: ret}
+	}
+	switch x.Fn {
+	case "fabs":
+		t := arg(0)
+		r := un("fabs", t, t.Sort, "(fp.abs x0)")
+		r.Go = t.Go
+		return r
+	case "fisnan":
+		return un("fisnan", arg(0), SBool, "(fp.isNaN x0)")
+	case "fisinf":
+		t := arg(0)
+		sgn := e.coerce(e.eval(x.Args[1]), SInt)
+		zero := fv.ilit(0)
+		fn := fmt.Sprintf("fisinf%d", t.Sort.W)
+		is := idxSort(fv.Mode)
+		if fv.fp {
+			// math.IsInf(f, sign): sign > 0 -> +Inf, sign < 0 -> -Inf, sign == 0 -> either
+			gt, lt := fv.ilt(zero, "x1"), fv.ilt("x1", zero)
+			fv.fpDefine(fn, []string{t.Sort.smt(fv.Mode), is}, "Bool", fmt.Sprintf("(and (fp.isInfinite x0) (ite %s (fp.isPositive x0) (ite %s (fp.isNegative x0) true)))", gt, lt))
+		} else {
+			fv.declareFun(fn, []string{t.Sort.smt(fv.Mode), is}, "Bool")
+		}
+		return Term{S: app(fn, t.S, sgn.S), Sort: SBool}
+	case "flt", "fle", "feq":
+		a, b := arg(0), arg(1)
+		if a.Sort.W != b.Sort.W {
+			e.fail("%s: operands of different width", x.Fn)
+		}
+		fn := fmt.Sprintf("%s%d", x.Fn, a.Sort.W)
+		ss := []string{a.Sort.smt(fv.Mode), a.Sort.smt(fv.Mode)}
+		if fv.fp {
+			fv.fpDefine(fn, ss, "Bool", map[string]string{"feq": "(fp.eq x0 x1)", "flt": "(fp.lt x0 x1)", "fle": "(fp.leq x0 x1)"}[x.Fn])
+		} else {
+			fv.declareFun(fn, ss, "Bool")
+		}
+		return Term{S: app(fn, a.S, b.S), Sort: SBool}
+	case "f32", "f64":
+		t := arg(0)
+		w := 32
+		gt := types.Type(types.Typ[types.Float32])
+		if x.Fn == "f64" {
+			w, gt = 64, types.Typ[types.Float64]
+		}
+		if t.Sort.W == w {
+			return t
+		}
+		return fv.floatOp("fconv", gt, t)
+	case "fconst":
+		lit, ok := x.Args[0].(EStr)
+		wl, ok2 := x.Args[1].(EInt)
+		if !ok || !ok2 || (wl.V != 32 && wl.V != 64) {
+			e.fail("fconst(\"<decimal>\", 32|64)")
+		}
+		gt := types.Type(types.Typ[types.Float64])
+		if wl.V == 32 {
+			gt = types.Typ[types.Float32]
+		}
+		s := fv.sortOf(gt)
+		name := "fconst_" + sanitize(strings.NewReplacer("+", "p", "-", "m", ".", "d").Replace(fmt.Sprintf("%d_%s", wl.V, lit.V)))
+		if fv.fp {
+			v := constant.MakeFromLiteral(lit.V, token.FLOAT, 0)
+			if v.Kind() == constant.Unknown {
+				e.fail("fconst: bad literal %q", lit.V)
+			}
+			fv.ensureSort(s)
+			fv.fpDefine(name, nil, s.smt(fv.Mode), fpLiteral(v, int(wl.V)))
+		} else {
+			fv.declare(name, s)
+		}
+		return Term{S: name, Sort: s, Go: gt}
+	}
+	e.fail("unknown float builtin %s", x.Fn)
+	return Term{}
 }
